@@ -23,7 +23,9 @@ PROPS = {
         assumptions=[
             "the dense long-double reference (Gauss-Jordan / GEPP with partial pivoting) is accurate to 8 n 2^-64 |A^-1||A||x| componentwise",
             "rounding bounds are first-order componentwise propagations with a safety factor 4 (stated next to each check); calibrated worst observed error/bound ratio 0.05 (dense inner solvers), 0.26 (GMRES inner solvers), "
-            "0.033 for |Z^T(b-Ax)| after project()/apply() over 1.04e6 cases (the inversion error of E = Z^T A Z enters through |L||U| of its pivoted LU, not through |E|)",
+            "0.033 for |Z^T(b-Ax)| after project()/apply() and 0.047 for x itself against x0 + Z E^-1 Z^T (b - A x0) over 1.04e6 cases (the inversion error of E = Z^T A Z enters through |L||U| of its "
+            "pivoted LU, not through |E|; the error of x is |Z| dd + lin_comb rounding with dd = |E^-1|(|Z|^T (n+2)u(|b|+|A||x0|) + ...), i.e. relative to the data, not to the result)",
+            "an exact breakdown reported by an exception (zero rho/sigma/omega, IDR(s) zero M[k,k]) is accepted and counted for bicgstab, bicgstabl, idrs on any system; cg and the gmres family must not throw",
             "schur_gmres: the premise 'exact inner solves' is checked per case: every inner solve must leave a relative residual <= tau = 1e-14 + 8 n u (measured in double with the same operator); "
             "cases where an inner GMRES misses that (about 5%, one NaN in 160000: GMRES divides by a vanishing Hessenberg pivot when the Krylov space of a tiny matrix-free system is exhausted before "
             "tol is reached) are counted and not asserted",
